@@ -26,10 +26,12 @@ class Frame:
         self.defcls = defcls      # ClassInfo in which the function is defined (for super())
         self.closure = closure    # dict of captured variables
         self.spec = spec
+        self.label = None
 
     def copy(self):
         f = Frame(self.func, self.module, self.defcls, self.closure, self.spec)
         f.locals = dict(self.locals)
+        f.label = self.label
         return f
 
 
@@ -65,6 +67,7 @@ class State:
         self.step_base = z3.IntVal(0)
         self.step_snap = None
         self.step_no = 0
+        self.yields = z3.IntVal(0)   # number of items this async generator has handed out so far (symbolic)
         self.user_start_time = None   # virtual time at which awaited user code first ran on this path
         self.user_awaits = 0      # how many times this path handed control to opaque user code
         self.step_time = None     # ghost: virtual time at which the current step of an async generator began
@@ -103,6 +106,7 @@ class State:
         s.step_base = self.step_base
         s.step_snap = self.step_snap
         s.step_no = self.step_no
+        s.yields = self.yields
         s.user_awaits = self.user_awaits
         s.user_start_time = self.user_start_time
         s.tick_time = self.tick_time
